@@ -209,10 +209,20 @@ def f_window_without_arrange_after_arrange_verb(prog, idxs, ctx):
 def f_union_mixed_types(prog, idxs, ctx):
     """A union whose column pairs differ in type (the verb accepts compatible types)."""
     env = (ctx or {}).get("ref")
+    real = (ctx or {}).get("real")
     for i in idxs:
         st = prog["steps"][i]
         if st["verb"] != "union":
             continue
+        if real is not None and st["in"] in real and st["right"] in real:
+            # concrete static types of the real tables (Int16 vs Int64 are the same REF family)
+            try:
+                lt = {c.name: str(c.dtype()).replace("const ", "") for c in real[st["in"]]}
+                rt_ = {c.name: str(c.dtype()).replace("const ", "") for c in real[st["right"]]}
+                if any(lt[n] != rt_.get(n, lt[n]) for n in lt):
+                    return True
+            except Exception:
+                pass
         if env is None or st["in"] not in env or st["right"] not in env:
             return True  # cannot tell: conservatively assume the feature (only used to excuse)
         lt, rt = env[st["in"]], env[st["right"]]
